@@ -232,6 +232,15 @@ def reporting_task(ctx, fx, f, b, spawn_t):
             r = b.blocks[o.site[0]]["s"][o.site[1]]["r"]
             if r.get("ak") == "coroutine" and fx.fn(r.get("def") or "") is not None:
                 lit = (fx.fn(r["def"]), r)
+        elif o.kind == "call" and not o.proj:
+            # the task is the future of a named crate-local `async fn` (`report(result_tx, future)`): its body is the async fn's
+            # coroutine, which captures the parameters in their order
+            ct = b.call_at(o)
+            h = fx.callee_fn(ct)
+            if h is not None and h.get("is_async") and h["kind"] in ("fn", "assoc_fn"):
+                kids = [c for c in fx.children_of(h["def"]) if c["kind"] == "coroutine"]
+                if len(kids) == 1:
+                    lit = (kids[0], {"ops": list(ct["args"])})
     if lit is None:
         return None
     co, r = lit
@@ -418,6 +427,19 @@ def check_join(ctx, fx, cfg, RULE):
 
 
 def check_forwarding(ctx, fx, cfg):
+    def own(gb, r, depth=0):
+        if r.kind in ("arg", "upvar"):
+            return True
+        # an accessor of the handle itself (`self.as_addr()`): a crate function that hands back (part of) what it is given
+        if r.kind.startswith("call:") and depth < 2:
+            acc = fx.fn(r.kind[5:])
+            if acc is not None and not acc.get("is_async") and acc["kind"] in ("fn", "assoc_fn"):
+                ab = ctx.body(fx, acc)
+                ars = roots(ab, {"k": "move", "p": [0]})
+                if ars and all(x.kind == "arg" for x in ars):
+                    ct = gb.blocks[r.site[0]]["t"]
+                    return bool(ct.get("args")) and all(own(gb, y, depth + 1) for a_ in ct["args"][:1] for y in roots(gb, a_))
+        return False
     # R17.3
     def one_call(fn_name, callee, inst, recv_field=None, RULE="R17.3"):
         f = fx.fn(fn_name)
@@ -442,20 +464,7 @@ def check_forwarding(ctx, fx, cfg):
         g, gb, t = hits[0]
         rs = roots(gb, t["args"][0]) if t["args"] else set()
 
-        def own(r, depth=0):
-            if r.kind in ("arg", "upvar"):
-                return True
-            # an accessor of the handle itself (`self.as_addr()`): a crate function that hands back (part of) what it is given
-            if r.kind.startswith("call:") and depth < 2:
-                acc = fx.fn(r.kind[5:])
-                if acc is not None and not acc.get("is_async") and acc["kind"] in ("fn", "assoc_fn"):
-                    ab = ctx.body(fx, acc)
-                    ars = roots(ab, {"k": "move", "p": [0]})
-                    if ars and all(x.kind == "arg" for x in ars):
-                        ct = gb.blocks[r.site[0]]["t"]
-                        return bool(ct.get("args")) and all(own(y, depth + 1) for a_ in ct["args"][:1] for y in roots(gb, a_))
-            return False
-        ctx.require(all(own(r) for r in rs), RULE, inst + ":on-self@" + cfg, "%s acts on something else than its own handle" % fn_name, fn=fn_name, site=t["l"])
+        ctx.require(all(own(gb, r) for r in rs), RULE, inst + ":on-self@" + cfg, "%s acts on something else than its own handle" % fn_name, fn=fn_name, site=t["l"])
         return g, gb, t
     h = one_call("addr::OwningAddr::<A>::join", "actor::spawner::actor_handle::ActorHandle::<A>::join", "join-forwards")
     if h:
@@ -497,4 +506,4 @@ def check_forwarding(ctx, fx, cfg):
         if ctx.require(f is not None, "R17.3", nm + "@" + cfg, "OwningAddr::%s not found" % nm):
             gb = ctx.body(fx, f)
             rs = roots(gb, {"k": "move", "p": [0]})
-            ctx.require(all(r.kind == "arg" for r in rs) and rs, "R17.3", nm + "@" + cfg, "%s must expose the owning address's own Addr" % nm, fn=f["def"], site=f["loc"])
+            ctx.require(all(own(gb, r) for r in rs) and rs, "R17.3", nm + "@" + cfg, "%s must expose the owning address's own Addr" % nm, fn=f["def"], site=f["loc"])
